@@ -231,8 +231,10 @@ type World struct {
 	// Tenanted scopes service-provider lookups by the issuer found in the request context (multi-tenant
 	// deployments register the same entity ID independently per virtual host).
 	Tenanted bool
-	ReqTag   string // prefix of generated request ids
-	NoLog    bool
+	// RespKeyFor, when set, selects the response signing key by the issuer found in the caller's context.
+	RespKeyFor func(issuer string) *key.CertificateAndKey
+	ReqTag     string // prefix of generated request ids
+	NoLog      bool
 	// UserFor names the user a freshly persisted request belongs to (nil = none).
 	UserFor func(reqID, appID string) string
 	// LoginURL builds the URL the browser is sent to after acceptance.
@@ -480,7 +482,14 @@ func (w *World) GetMetadataSigningKey(ctx context.Context) (*key.CertificateAndK
 func (w *World) GetResponseSigningKey(ctx context.Context) (*key.CertificateAndKey, error) {
 	w.delay("GetResponseSigningKey")
 	f := w.fault(ctx, "GetResponseSigningKey")
-	k, err := w.keyFault(f, w.RespKey)
+	base := w.RespKey
+	if w.RespKeyFor != nil {
+		// one key per virtual host / tenant: which one is meant follows from the issuer in the caller's context
+		if kk := w.RespKeyFor(provider.IssuerFromContext(ctx)); kk != nil {
+			base = kk
+		}
+	}
+	k, err := w.keyFault(f, base)
 	w.log(Event{Tag: TagOf(ctx), Op: "GetResponseSigningKey", Res: f, Err: f != ""})
 	return k, err
 }
@@ -577,6 +586,19 @@ func (w *World) AuthRequestByID(ctx context.Context, id string) (models.AuthRequ
 	}
 	w.log(Event{Tag: TagOf(ctx), Op: "AuthRequestByID", Args: []string{id}, Res: "found"})
 	return &reqView{w: w, tag: TagOf(ctx), r: r}, nil
+}
+
+// TerminateSession is not part of provider.Storage. A provider may probe its storage for optional abilities by type
+// assertion; the harness can only offer the ones it knows of. This one (ending the user's session at logout) was
+// introduced by a seeded change; on a tree that does not ask for it the method is never called.
+func (w *World) TerminateSession(ctx context.Context, serviceProviderID string, nameID string, sessionIndexes []string) error {
+	w.delay("TerminateSession")
+	if f := w.fault(ctx, "TerminateSession"); f != "" {
+		w.log(Event{Tag: TagOf(ctx), Op: "TerminateSession", Args: []string{serviceProviderID, nameID}, Res: f, Err: true})
+		return errFor(f)
+	}
+	w.log(Event{Tag: TagOf(ctx), Op: "TerminateSession", Args: []string{serviceProviderID, nameID}, Res: "ok"})
+	return nil
 }
 
 func fill(s models.AttributeSetter, u *User) {
